@@ -90,8 +90,15 @@ def gen_case(rng, cid, ops=OPS, nmax=5, maxelems=120, ev="Stencil"):
         args = {"data": data, "axis": [a["name"] for a in opaxes], "to": to,
                 "boundary": gen.rand_tagged(rng, axnames, gen.RULES, partial=True),
                 "fill_value": gen.rand_tagged(rng, axnames, [-3, -2, -1, 0, 1, 2, 3], partial=True)}
-        return {"id": cid, "ev": ev, "op": rng.choice(ops),
+        case = {"id": cid, "ev": ev, "op": rng.choice(ops),
                 "grid": {"axes": axes, "extra": extra, "ctor": ctor}, "args": args}
+        if rng.random() < 0.2:
+            # earlier calls on the same Grid with other per-call rules: the rule in force for a call is that call's
+            # argument or the Grid's setting, never what an earlier call was given
+            case["before"] = [{"boundary": gen.rand_tagged(rng, axnames, gen.RULES, partial=True),
+                               "fill_value": gen.rand_tagged(rng, axnames, [-3, -2, -1, 0, 1, 2, 3], partial=True)}
+                              for _ in range(rng.randint(1, 2))]
+        return case
 
 
 def table_cases(start_id, nmin=2, nmax=6, ops=OPS, ev="Stencil"):
@@ -133,6 +140,11 @@ def execute(case):
         axis = [nm(a) for a in case["args"]["axis"]]
         if case["args"].get("axis_as_str") and len(axis) == 1:
             axis = axis[0]
+        for b in case.get("before", []):
+            try:
+                getattr(grid, case["op"])(da, axis, **dict(kw, **model.call_kwargs(b, nm)))
+            except Exception:
+                pass
         res = getattr(grid, case["op"])(da, axis, **kw)
         scale = 2 ** len(case["args"]["axis"]) if case["op"] == "interp" else 1
         rec["out"] = model.encode_result(res, scale, nm)
